@@ -1,8 +1,11 @@
 package mc
 
 import (
+	"bytes"
+	"context"
 	"errors"
 	"fmt"
+	"net"
 	"sync"
 	"time"
 
@@ -74,13 +77,18 @@ func init() {
 			stop()
 		}
 		// full window without acknowledgements: limit+1 gets ErrMax, identifiers distinct
-		for wi, win := range []int{1, 2, 3, 16384} {
+		// configured limits beyond the 14-bit identifier space (and negative
+		// ones) mean the whole space, per level independently
+		type winCase struct{ w1, w2, eff1, eff2 int }
+		for wi, wc := range []winCase{{1, 1, 1, 1}, {2, 2, 2, 2}, {3, 3, 3, 3}, {16384, 16384, 16384, 16384},
+			{20000, 5, 16384, 5}, {5, 20000, 5, 16384}, {16385, 16385, 16384, 16384}, {-1, 2, 16384, 2}, {2, -1, 2, 16384}} {
 			if (wi+1)%e.nshards != e.shard {
 				continue
 			}
 			cfg := baseConfig()
 			cfg.PauseTimeout = 0
-			cfg.AtLeastOnceMax, cfg.ExactlyOnceMax = win, win
+			cfg.AtLeastOnceMax, cfg.ExactlyOnceMax = wc.w1, wc.w2
+			e.at("full windows %d/%d", wc.w1, wc.w2)
 			c, conn, stop, err := onlineClient(cfg, newPlainStore())
 			if err != nil {
 				continue
@@ -91,6 +99,10 @@ func init() {
 			conn.mu.Unlock()
 			conn.reset()
 			for lvl := 1; lvl <= 2; lvl++ {
+				win := wc.eff1
+				if lvl == 2 {
+					win = wc.eff2
+				}
 				for i := 0; i <= win; i++ {
 					var err error
 					if lvl == 1 {
@@ -100,11 +112,11 @@ func init() {
 					}
 					e.evals.Add(1)
 					if i < win && err != nil {
-						e.violate("C17", "window-refused-early", "publish %d of level %d refused with window %d: %v", i, lvl, win, err)
+						e.violate("C17", "window-refused-early", "publish %d of level %d refused with limits %d/%d: %v", i, lvl, wc.w1, wc.w2, err)
 						break
 					}
 					if i == win && !errors.Is(err, mqtt.ErrMax) {
-						e.violate("C17", "window-exceeded", "publish %d of level %d with window %d returned %v, want ErrMax", i, lvl, win, err)
+						e.violate("C17", "window-exceeded", "publish %d of level %d with limits %d/%d returned %v, want ErrMax", i, lvl, wc.w1, wc.w2, err)
 					}
 				}
 			}
@@ -113,12 +125,12 @@ func init() {
 			for _, p := range pk {
 				if p.Type == tPUBLISH {
 					if seen[p.ID] {
-						e.violate("C17", "identifier-reused-in-flight", "identifier %#04x on two unacknowledged transfers (window %d)", p.ID, win)
+						e.violate("C17", "identifier-reused-in-flight", "identifier %#04x on two unacknowledged transfers (limits %d/%d)", p.ID, wc.w1, wc.w2)
 					}
 					seen[p.ID] = true
 				}
 			}
-			e.distinct[fmt.Sprintf("full-window-%d", win)] = true
+			e.distinct[fmt.Sprintf("full-window-%d/%d", wc.w1, wc.w2)] = true
 			stop()
 		}
 	}
@@ -338,5 +350,75 @@ func init() {
 		e.distinct["slots-512"] = true
 		e.distinct["slot-513"] = true
 		e.sample("512 pending subscribe/unsubscribe requests, identifiers distinct; the 513th gets ErrMax")
+	}
+}
+
+func init() {
+	// C06 at the boundaries of the remaining-length encoding: the largest
+	// packet of each length class and the smallest of the next, inbound
+	e3tests["c06-lengths"] = func(e *e3, thorough bool) {
+		if e.shard != 0 {
+			return
+		}
+		lengths := []int{0 + 5, 127, 128, 16383, 16384, 131071, 131072, 131073, 2097151, 2097152, 2097153}
+		if thorough {
+			lengths = append(lengths, 4<<20+1, 32<<20, 268435455)
+		}
+		for _, rl := range lengths {
+			for qos := 0; qos <= 1; qos++ {
+				e.at("inbound PUBLISH with remaining length %d, QoS %d", rl, qos)
+				n := rl - 2 - 3 // topic "big"
+				if qos > 0 {
+					n -= 2
+				}
+				if n < 0 {
+					continue
+				}
+				body := make([]byte, n)
+				for i := range body {
+					body[i] = byte(i*31 + i>>8)
+				}
+				conn := newLoopConn()
+				conn.discard = true
+				cfg := baseConfig()
+				cfg.PauseTimeout = 0
+				cfg.Dialer = func(ctx context.Context) (net.Conn, error) { return conn, nil }
+				c, err := mqtt.VolatileSession("e3", &cfg)
+				if err != nil {
+					e.violate("C06", "setup", "%v", err)
+					return
+				}
+				conn.mu.Lock()
+				// the CONNACK is appended by the answering machine; the stream follows it
+				conn.after = append(encPublish(qos, false, false, 9, "big", body), encPublish(0, false, false, 0, "next", []byte("small"))...)
+				conn.mu.Unlock()
+				e.evals.Add(1)
+				e.distinct[fmt.Sprintf("rl%d/q%d", rl, qos)] = true
+				msg, topic, err := c.ReadSlices()
+				var big *mqtt.BigMessage
+				switch {
+				case errors.As(err, &big):
+					if big.Topic != "big" || big.Size != n {
+						e.violate("C06", "bigmessage-mismatch", "remaining length %d: BigMessage{Topic:%q Size:%d}, sent %q with %d bytes", rl, big.Topic, big.Size, "big", n)
+					} else if got, rerr := big.ReadAll(); rerr != nil || !bytes.Equal(got, body) {
+						e.violate("C06", "bigmessage-content", "remaining length %d: ReadAll gave %d bytes, error %v; the content differs from what was sent", rl, len(got), rerr)
+					}
+				case err != nil:
+					e.violate("C06", "well-formed-publish-rejected", "inbound PUBLISH with remaining length %d (QoS %d) made ReadSlices fail: %v", rl, qos, err)
+					c.Close()
+					continue
+				default:
+					if string(topic) != "big" || !bytes.Equal(msg, body) {
+						e.violate("C06", "delivery-mismatch", "remaining length %d: got (%q, %d bytes), sent (%q, %d bytes)", rl, topic, len(msg), "big", n)
+					}
+				}
+				msg, topic, err = c.ReadSlices()
+				if err != nil || string(topic) != "next" || string(msg) != "small" {
+					e.violate("C06", "stream-misaligned-after-big", "after the PUBLISH with remaining length %d the next message came back as (%q, %q, %v)", rl, topic, msg, err)
+				}
+				c.Close()
+			}
+		}
+		e.sample("inbound PUBLISH packets at the boundaries of the remaining-length encoding: %v", lengths)
 	}
 }
